@@ -587,13 +587,22 @@ func (P *Program) ghostScope(parent *types.Scope, pkg *types.Package, pos token.
 		if !named {
 			for i := 0; i < res.Len(); i++ {
 				sc.Insert(types.NewVar(token.NoPos, pkg, fmt.Sprintf("result%d", i), res.At(i).Type()))
-				if res.Len() == 1 {
+				if res.Len() == 1 && parent.Lookup("result") == nil && !hasParamNamed(fn, "result") {
 					sc.Insert(types.NewVar(token.NoPos, pkg, "result", res.At(i).Type()))
 				}
 			}
 		}
 	}
 	return sc
+}
+
+func hasParamNamed(fn *ssa.Function, name string) bool {
+	for _, p := range fn.Params {
+		if p.Name() == name {
+			return true
+		}
+	}
+	return false
 }
 
 // prepare parses and type-checks a clause at position pos of fn's package.
@@ -782,6 +791,21 @@ func (e *specEnv) constOf(x ast.Expr) (Term, bool) {
 	if !ok || tv.Value == nil {
 		return Term{}, false
 	}
+	// an expression that contains a retAs/argAs placeholder with a constant witness is not constant
+	if len(ghostAs) > 0 {
+		hasGhost := false
+		ast.Inspect(x, func(n ast.Node) bool {
+			if p, ok := n.(*ast.ParenExpr); ok {
+				if _, isG := ghostAs[p]; isG {
+					hasGhost = true
+				}
+			}
+			return !hasGhost
+		})
+		if hasGhost {
+			return Term{}, false
+		}
+	}
 	t := tv.Type
 	switch u := t.Underlying().(type) {
 	case *types.Basic:
@@ -906,8 +930,8 @@ func (e *specEnv) ident(n *ast.Ident) Term {
 		return t
 	}
 	if v, ok := obj.(*types.Var); ok {
-		// result placeholders
-		if i, ok := e.resNames[n.Name]; ok && e.results != nil && (obj.Pkg() == nil || obj.Parent() == nil || strings.HasPrefix(n.Name, "result")) {
+		// result placeholders (ghost variables have no source position)
+		if i, ok := e.resNames[n.Name]; ok && e.results != nil && !obj.Pos().IsValid() {
 			return e.results[i]
 		}
 		// named result / parameter / local of the function
@@ -1468,6 +1492,13 @@ func (e *specEnv) call(n *ast.CallExpr) Term {
 			delete(e.vars, obj)
 			vc.hasQuant = true
 			rng := mkAnd(sle(lo, bv), slt(bv, hi))
+			if sle(hi, lo).S == "true" || lo.S == hi.S {
+				// empty range
+				if id.Name == "forall" {
+					return tTrue
+				}
+				return tFalse
+			}
 			if id.Name == "forall" {
 				return Term{fmt.Sprintf("(forall ((%s (_ BitVec 64))) %s)", bv.S, mkImplies(rng, body).S), SBool}
 			}
